@@ -13,6 +13,7 @@ import (
 func registerMoreIntrinsics() {
 	registerECIntrinsics()
 	registerSyncMapIntrinsics()
+	registerCacheIntrinsics()
 	registerKVIntrinsics()
 	registerThreadIntrinsics()
 	m := map[string]intrinsicFn{
@@ -366,3 +367,61 @@ func registerSyncMapIntrinsics() {
 		return nil
 	}
 }
+
+// ristretto.Cache[[]byte, any]: an association list keyed by byte content. Real ristretto
+// may drop or evict any item at any time (admission policy, buffers), so a Get of a stored
+// key forks into "served" and "missing".
+type cacheModel struct {
+	keys [][]*Term
+	vals []Value
+}
+
+func registerCacheIntrinsics() {
+	cacheOf := func(p *Path, v Value) *cacheModel {
+		o := opaqueOf(p, v, "ristretto")
+		return o.data.(*cacheModel)
+	}
+	cachePrefix = func(name string) intrinsicFn {
+		const pfx = "github.com/dgraph-io/ristretto/v2."
+		switch {
+		case strings.HasPrefix(name, pfx+"NewCache["):
+			return func(p *Path, _ *ssa.Function, a []Value) Value {
+				return Tuple{opaquePtr("ristretto", &cacheModel{}), Iface{}}
+			}
+		case strings.HasPrefix(name, "(*"+pfx+"Cache[") && strings.HasSuffix(name, ").Get"):
+			return func(p *Path, _ *ssa.Function, a []Value) Value {
+				c := cacheOf(p, a[0])
+				key := sliceTerms(a[1])
+				for i := len(c.keys) - 1; i >= 0; i-- {
+					if p.branch(p.keyEq(c.keys[i], key)) {
+						if p.choose(0, 1) == 1 { // dropped / evicted
+							p.inputs = append(p.inputs, InputRec{Kind: "choose", Label: "cache", Conc: 1})
+							return Tuple{Iface{}, p.tb.False}
+						}
+						p.inputs = append(p.inputs, InputRec{Kind: "choose", Label: "cache", Conc: 0})
+						return Tuple{copyVal(c.vals[i]), p.tb.True}
+					}
+				}
+				return Tuple{Iface{}, p.tb.False}
+			}
+		case strings.HasPrefix(name, "(*"+pfx+"Cache[") && strings.HasSuffix(name, ").Set"):
+			return func(p *Path, _ *ssa.Function, a []Value) Value {
+				c := cacheOf(p, a[0])
+				c.keys = append(c.keys, sliceTerms(a[1]))
+				c.vals = append(c.vals, copyVal(a[2]))
+				return p.tb.True
+			}
+		case strings.HasPrefix(name, "(*"+pfx+"Cache[") && (strings.HasSuffix(name, ").Wait") || strings.HasSuffix(name, ").Close")):
+			return nop
+		case strings.HasPrefix(name, "(*"+pfx+"Cache[") && strings.HasSuffix(name, ").Clear"):
+			return func(p *Path, _ *ssa.Function, a []Value) Value {
+				c := cacheOf(p, a[0])
+				c.keys, c.vals = nil, nil
+				return nil
+			}
+		}
+		return nil
+	}
+}
+
+var cachePrefix func(name string) intrinsicFn
